@@ -66,7 +66,7 @@ type GenSpec struct {
 	Script map[string]FragSpec `json:"script,omitempty"` // key: "<pkg index>/<object key>"
 }
 
-// Decl kinds: func | mapvar | id:<path>.<Name> | bad
+// Decl kinds: func | mapvar (map[string]int) | mapvar:<int|uint8|bool|month|rune|float64>:<entries> | id:<path>.<Name> | bad
 type FragSpec struct {
 	Outcome string   `json:"outcome"` // render | skip | ignore | err
 	Decls   []string `json:"decls,omitempty"`
@@ -356,6 +356,9 @@ func importsOf(ds []Decl) []string {
 			if i := strings.LastIndex(ref, "."); i > 0 {
 				out = append(out, ref[:i])
 			}
+		}
+		if strings.HasPrefix(d.Kind, "mapvar:month:") { // map[time.Month]string: the key type is named through the import table
+			out = append(out, "time")
 		}
 	}
 	return out
